@@ -7,6 +7,7 @@ mod gen;
 mod proj;
 mod rng;
 mod sessions;
+mod trainer_cases;
 
 use std::collections::HashMap;
 
@@ -43,6 +44,13 @@ fn main() {
         "parse-cases" => parsecases::parse_cases(&a),
         "fuzz-build" => parsecases::fuzz_build(&a),
         "record-lex" => parsecases::record_lex(&a),
+        "rewrite-cases" => trainer_cases::rewrite_cases(&a),
+        "record-rewrite" => trainer_cases::record_rewrite(&a),
+        "expand-cases" => trainer_cases::expand_cases(&a),
+        "record-expand" => trainer_cases::record_expand(&a),
+        "corpus-cases" => trainer_cases::corpus_cases(&a),
+        "record-corpus" => trainer_cases::record_corpus(&a),
+        "record-mecab-lines" => trainer_cases::record_mecab_lines(&a),
         "record-dict" => dictops::record(&a),
         "replay-dict" => dictops::replay(&a),
         _ => {
